@@ -117,6 +117,7 @@ package task
 //@ ghost var seqErr error scratch
 //@ ghost var parErr error scratch
 //@ ghost var nVetted int scratch
+//@ ghost var lookupFailed bool scratch
 //@ func (*Executor).Run
 //@   entry tok == 0     -- API entry point: the goroutine that starts an invocation holds no concurrency slot
 //@   init anyInternal := false
@@ -124,14 +125,20 @@ package task
 //@   site (*Executor).GetTask#0 requires arg1 == calls[$i] && nVetted == $i                                 [C13]
 //@   site (*Executor).GetTask#1 ghost anyInternal := anyInternal || (result.1 == nil && result.0.Internal)
 //@   site (*Executor).GetTask#1 ghost nVetted := nVetted + 1
-//@   loop 1 invariant !anyInternal && nVetted == $i                                                         [C13]
-//@   loop 6 invariant tok == 0 && !anyInternal && nVetted == len(calls)                                     [C13]
+//@   loop 1 invariant !anyInternal && nVetted == $i && !lookupFailed                                        [C13,C15]
+//@   loop 6 invariant tok == 0 && !anyInternal && nVetted == len(calls) && !lookupFailed                    [C13,C15]
 //@   site (*Executor).RunTask#0 requires !anyInternal && nVetted == len(calls)                              [C13]
 //@   site (*Group).Go#0 requires !anyInternal && nVetted == len(calls)                                      [C13]
 // the tasks started with --parallel are ALL awaited before Run returns (the group's Wait): their deferred commands
 // have run by then, whichever task failed first
 //@   site (*Group).Wait#0 requires nVetted == len(calls)                                                    [C14,C02,C03]
 //@   site (*Executor).watchTasks#0 requires !anyInternal && nVetted == len(calls)                           [C13]
+// every requested name is looked up BEFORE any mode answers - also --summary, which forgives compile errors: a name
+// that does not resolve (200), resolves ambiguously (203) or names an internal task (202) is an error in every mode
+//@   site (*Executor).FastCompiledTask#0 requires !anyInternal && nVetted == len(calls)                     [C15,C13]
+//@   init lookupFailed := false
+//@   site (*Executor).GetTask#1 ghost lookupFailed := lookupFailed || result.1 != nil
+//@   ensures lookupFailed ==> result != nil                                                                 [C15,C13]
 //@   ensures anyInternal ==> result != nil && dyn(result) == type(*errors.TaskInternalError)                [C13]
 // C03: what fails the invocation is the error of the task that failed, itself - the first one when tasks run in
 // parallel: its type is what the process exit status is computed from (task-run error 201 or the command's own
@@ -694,6 +701,9 @@ package task
 //@   site execext.RunCommand#1 ghost dynEvaluated := result == nil
 //@   site mapstore#0 ghost dynRemembered := true
 //@   ensures result.1 == nil && dynEvaluated ==> dynRemembered                                                 [C14,C11]
+// ... and is found again: the command runs only after the cache was asked for the key and said ABSENT (a remembered
+// result that is empty is a result: it must not read as "not there")
+//@   site execext.RunCommand#0 requires !ok                                                                    [C14,C11]
 
 // ---- C11: compiling a task builds a fresh object graph ---------------------------------------------------
 // Every command, dependency and precondition put into the compiled task is a copy made during this call (so
